@@ -21,6 +21,16 @@ WS = {
     "nbsp-nbsp": lambda s: s.replace(" ", "\xa0\xa0"),
     "nbsp-tab": lambda s: s.replace(" ", "\xa0\t"),
     "colon": lambda s: s + ":",
+    # one-sided white space, and white space after the trailing colon (RE_TRIM_SPACES used to
+    # trim only when both sides had some: fix 52b4365)
+    "lead": lambda s: " \t" + s,
+    "trail": lambda s: s + "  ",
+    "trail-newline": lambda s: s + "\n",
+    "colon-trail": lambda s: s + ": ",
+    "colon-newline": lambda s: s + ":\n",
+    "lead-colon": lambda s: " " + s + ":",
+    "nbsp-trail": lambda s: s + "\xa0",
+    "colon-space-colon": lambda s: s + ": :",
 }
 
 
@@ -50,7 +60,8 @@ def work(s):
     canonical = s == s.strip() and "  " not in s and not s.rstrip().endswith(":")
     if canonical:
         for name, w in WS.items():
-            if name != "pad" and name != "colon" and " " not in s:
+            if name in ("double", "tab", "newline", "nbsp", "mixed", "nbsp-led-run", "nbsp-nbsp",
+                        "nbsp-tab") and " " not in s:
                 continue
             n += 1
             r = parse(w(s))
